@@ -68,7 +68,7 @@ func init() {
 		TrustedBase: []string{stdTrusted, "stubs in gosym/stubs.go"},
 	})
 	reg(&PropertySpec{
-		ID: "C03", Level: "model_checking",
+		ID: "C03", Level: "model_checking", Extra: regoC03,
 		Rule: "one state = one feasible path of BuildReport/buildResults/ValidationReportNode/DialectInstance for one (nv,nw,ni) in [0,2]^3, symbolic profile name / shape names / schema IRIs (bytes), symbolic IncludeReportCreationTime, two clock values",
 		Harnesses: func(tier string) []HarnessSpec {
 			return []HarnessSpec{
@@ -76,7 +76,7 @@ func init() {
 				{Pkg: "internal/validator", Fn: "VerifC03EmptyResultSet", Reach: []string{"returned"}},
 			}
 		},
-		Assumptions: []string{"validator.Encode's json.Encoder is intercepted: the oracle inspects the structure handed to it; encoding/json is trusted to serialise it faithfully", "the level plumbing inside the generated Rego (which validation lands in which bucket) is not covered by this harness (regosym part C03b)"},
+		Assumptions: []string{"validator.Encode's json.Encoder is intercepted: the oracle inspects the structure handed to it; encoding/json is trusted to serialise it faithfully", "regosym part: for every layout of 2-3 validations over {violation, warning, info, defined-but-unlisted} (plus a listed-but-undefined name) the emitted module reports each validation only under its level, the three level keys are always defined and report.profile is the name — on graphs of 2 nodes"},
 		TrustedBase: []string{stdTrusted},
 	})
 
@@ -106,7 +106,7 @@ func init() {
 	})
 
 	reg(&PropertySpec{
-		ID: "C13", Level: "model_checking",
+		ID: "C13", Level: "model_checking", Extra: regoC13,
 		Rule: "one state = one feasible path of the real text-pasting code (profileName, wrapBranch/sanitizedMessage, ParseMessageExpression, Generate*SetRule, GeneratePattern) plus the reference Rego string scanner, on symbolic text bytes; each path is a class of texts (by position of quotes, backslashes, control characters, percent signs, backticks) decided by z3",
 		Harnesses: func(tier string) []HarnessSpec {
 			g := "internal/generator"
@@ -137,7 +137,7 @@ func init() {
 			"texts are ASCII: printable characters, tab and newline; bytes >= 0x80 are outside the bound (they are copied through byte-transparently by the code under test)",
 			"the reference scanner in the harness implements Rego's string literal syntax (JSON escapes, raw back-quoted strings, raw control characters illegal) and fmt's %% / %v verbs",
 			"ParseMessageExpression uses regexp, which runs natively on concrete text: there the bytes range over a 12-character representative alphabet (a \" \\ % ' { } space newline v tab backtick) instead of being solver variables",
-			"how the policy engine substitutes placeholder values at evaluation time (sprintf/object.get) is not part of this harness",
+			"regosym part: substitution of one placeholder by the focus node's single scalar value (string with quote/percent, integer, boolean, float) or `null` when absent, for 4 message texts; several values or references as placeholder values are undocumented and not compared",
 		},
 		TrustedBase: []string{stdTrusted, "symbolic models of fmt.Sprintf, strings.ReplaceAll/Join/Contains/HasPrefix, strings.Builder, json.Marshal(string)"},
 	})
@@ -268,6 +268,33 @@ func init() {
 			"path expressions are enumerated up to the stated number of predicate occurrences over two predicates; deeper expressions are outside the bound",
 			"expressions whose last step mixes a forward predicate with an inverse one are skipped (a raw reference and the node it denotes are different representations; the documentation does not say which one a constraint sees)",
 			"a counterexample is confirmed by evaluating the generated rule with the real OPA on the document normalised by the real pipeline",
+		},
+		TrustedBase: []string{stdTrusted, regoTrusted},
+	})
+
+	reg(&PropertySpec{
+		ID: "C12", Level: "translation_validation", Extra: regoC12,
+		Rule: "gosym: one state = one feasible path of BuildReport over a result tree of nondeterministic shape and one map-order policy; regosym: one program = one profile of the families, whose emitted module is evaluated on a symbolic graph and every result object it can produce is checked for shape",
+		Harnesses: func(tier string) []HarnessSpec {
+			return []HarnessSpec{{Pkg: "internal/validator", Fn: "VerifC12Ids", Reach: []string{"ids-defined"}, Bounds: map[string]any{"depth": "1..3", "traces_per_result": "1..2", "sub_results_per_trace": "0..2", "locations": "none|all", "results": "1..2 violations, 0..1 warnings", "map_orders": "canonical | all reversed | all rotated"}}}
+		},
+		Assumptions: []string{
+			"result trees are built from the three constructors the Rego preamble has (result, trace, location); the same shape parameters are used at every level of a tree (bound)",
+			"regosym part: focus node is an existing input node, sourceShapeName is a validation of the profile (or `nested` in sub-results), message and trace non-empty, every trace entry names component and resultPath — for the programs of the families on graphs of 3 nodes",
+			"result shapes produced by embedded Rego are outside; validity of the JSON text is encoding/json's business",
+		},
+		TrustedBase: []string{stdTrusted, regoTrusted},
+	})
+	reg(&PropertySpec{
+		ID: "C14", Level: "translation_validation", Extra: regoC14,
+		Rule: "gosym: one state = one flattened graph with a nondeterministic lexical layout through the real Index; regosym: one program evaluated on a symbolic graph whose @lexical entries (range text from a boundary pool, uri) are solver-chosen per node",
+		Harnesses: func(tier string) []HarnessSpec {
+			return []HarnessSpec{{Pkg: "internal/validator", Fn: "VerifC14Index", Reach: []string{"indexed"}, Bounds: map[string]any{"domain_nodes": 3, "lexical_entries": "0..3, element = any node or a property IRI", "source_information": "absent | present with 0..2 additional locations listing any subset of the nodes"}}}
+		},
+		Assumptions: []string{
+			"gosym part: the flattened graph is given in the JSON-LD processor's output form (containers single-or-array)",
+			"regosym part: range texts come from a boundary pool of magnitudes (0, 9, 10, 99, 100, 2^31, 2^53+1); arbitrary magnitudes beyond it are outside the bound",
+			"a counterexample is confirmed by rendering the graph with real source-map nodes and validating it through the real entry point",
 		},
 		TrustedBase: []string{stdTrusted, regoTrusted},
 	})
